@@ -42,7 +42,7 @@ def run(ctx):
         for x in gd.nodes:
             if x.ast is None: continue
             if any(isinstance(a, ast.Attribute) and a.attr == f and dotted(a.value) == dele.recv for a in x.walk()):
-                if x.kind == 'test' or all(gd.dominated(r, [x]) for r in rets): return True
+                if x.kind == 'test' or isinstance(x.ast, ast.Assert) or all(gd.dominated(r, [x]) for r in rets): return True
         return False
     for f in ROWSET:
         ok = f in rd and consulted(f)
